@@ -1099,13 +1099,14 @@ Proof.
   replace (S - s1 + (s1 + s2 - S)) with s2 by lia. replace (S - s2 + (s1 + s2 - S)) with s1 by lia. reflexivity.
 Qed.
 
-Lemma dec_bind_meta_scale : forall m kd p1 s1 p2 s2 np ns,
-  dec_bind_meta m kd p1 s1 p2 s2 = Ok (np, ns) -> ns = Z.max s1 s2.
+Lemma dec_bind_meta_scale : forall P m kd p1 s1 p2 s2 np ns,
+  dec_bind_meta P m kd p1 s1 p2 s2 = Ok (np, ns) -> ns = Z.max s1 s2.
 Proof.
-  intros m kd p1 s1 p2 s2 np ns H. unfold dec_bind_meta in H.
+  intros P m kd p1 s1 p2 s2 np ns H. unfold dec_bind_meta in H.
   destruct ((p1 =? p2) && (s1 =? s2)) eqn:E.
   - inversion H. lia.
-  - destruct (arith_result Native m Signed 8 (p1 - s1)); cbn [bind_out] in H; try discriminate.
+  - destruct (bind_i8 P); [|inversion H; reflexivity].
+    destruct (arith_result Native m Signed 8 (p1 - s1)); cbn [bind_out] in H; try discriminate.
     destruct (arith_result Native m Signed 8 (p2 - s2)); cbn [bind_out] in H; try discriminate.
     destruct (arith_result Native m Signed 8 (Z.max a a0 + Z.max s1 s2)); cbn [bind_out] in H; try discriminate.
     inversion H. reflexivity.
@@ -1133,11 +1134,11 @@ Proof.
 Qed.
 
 (* never a wrong answer: whatever the common type, whenever a truth value comes back it is the order of the rationals *)
-Lemma dec_cmp_sound : forall m kd p1 s1 v1 p2 s2 v2 c,
-  dec_cmp_core m kd p1 s1 (Some v1) p2 s2 (Some v2) = Ok (Some c) -> c = spec_dec_cmp s1 v1 s2 v2.
+Lemma dec_cmp_sound : forall P m kd p1 s1 v1 p2 s2 v2 c,
+  dec_cmp_core P m kd p1 s1 (Some v1) p2 s2 (Some v2) = Ok (Some c) -> c = spec_dec_cmp s1 v1 s2 v2.
 Proof.
-  intros m kd p1 s1 v1 p2 s2 v2 c H. unfold dec_cmp_core in H.
-  destruct (dec_bind_meta m kd p1 s1 p2 s2) as [[np ns]| |] eqn:Em; cbn [bind_out] in H; try discriminate.
+  intros P m kd p1 s1 v1 p2 s2 v2 c H. unfold dec_cmp_core in H.
+  destruct (dec_bind_meta P m kd p1 s1 p2 s2) as [[np ns]| |] eqn:Em; cbn [bind_out] in H; try discriminate.
   apply dec_bind_meta_scale in Em.
   destruct (cast_side kd p1 s1 np ns (Some v1)) as [a| |] eqn:E1; cbn [bind_out] in H; try discriminate.
   destruct (cast_side kd p2 s2 np ns (Some v2)) as [b| |] eqn:E2; cbn [bind_out] in H; try discriminate.
@@ -1145,11 +1146,11 @@ Proof.
   apply cast_side_inv in E1; [|lia]. apply cast_side_inv in E2; [|lia]. subst x y ns. reflexivity.
 Qed.
 
-Lemma dec_cmp_null : forall m kd p1 s1 v1 p2 s2 v2 c,
-  dec_cmp_core m kd p1 s1 v1 p2 s2 v2 = Ok c -> (v1 = None \/ v2 = None) -> c = None.
+Lemma dec_cmp_null : forall P m kd p1 s1 v1 p2 s2 v2 c,
+  dec_cmp_core P m kd p1 s1 v1 p2 s2 v2 = Ok c -> (v1 = None \/ v2 = None) -> c = None.
 Proof.
-  intros m kd p1 s1 v1 p2 s2 v2 c H Hn. unfold dec_cmp_core in H.
-  destruct (dec_bind_meta m kd p1 s1 p2 s2) as [[np ns]| |]; cbn [bind_out] in H; try discriminate.
+  intros P m kd p1 s1 v1 p2 s2 v2 c H Hn. unfold dec_cmp_core in H.
+  destruct (dec_bind_meta P m kd p1 s1 p2 s2) as [[np ns]| |]; cbn [bind_out] in H; try discriminate.
   destruct (cast_side kd p1 s1 np ns v1) as [a| |] eqn:E1; cbn [bind_out] in H; try discriminate.
   destruct (cast_side kd p2 s2 np ns v2) as [b| |] eqn:E2; cbn [bind_out] in H; try discriminate.
   inversion H.
@@ -1189,24 +1190,26 @@ Qed.
 
 (* full statement (refuted: dec_cmp_refuted -- the common precision is clamped at MAX_PRECISION and the rescaled value
    does not fit: an error although the comparison is defined):
-     forall m kd p1 s1 v1 p2 s2 v2, 1 <= p1 <= maxprec kd -> 1 <= p2 <= maxprec kd -> -128 <= s1 <= p1 -> -128 <= s2 <= p2 ->
+     forall P m kd p1 s1 v1 p2 s2 v2, 1 <= p1 <= maxprec kd -> 1 <= p2 <= maxprec kd -> -128 <= s1 <= p1 -> -128 <= s2 <= p2 ->
        Z.abs v1 < 10 ^ p1 -> Z.abs v2 < 10 ^ p2 ->
-       dec_cmp_core m kd p1 s1 (Some v1) p2 s2 (Some v2) = Ok (Some (spec_dec_cmp s1 v1 s2 v2)) *)
-Lemma dec_cmp_correct_partial : forall m kd p1 s1 v1 p2 s2 v2,
+       dec_cmp_core P m kd p1 s1 (Some v1) p2 s2 (Some v2) = Ok (Some (spec_dec_cmp s1 v1 s2 v2)) *)
+Lemma dec_cmp_correct_partial : forall P m kd p1 s1 v1 p2 s2 v2,
   1 <= p1 <= maxprec kd -> 1 <= p2 <= maxprec kd -> -64 <= s1 <= p1 -> -64 <= s2 <= p2 ->
   Z.max (p1 - s1) (p2 - s2) + Z.max s1 s2 <= maxprec kd ->
   Z.abs v1 < 10 ^ p1 -> Z.abs v2 < 10 ^ p2 ->
-  dec_cmp_core m kd p1 s1 (Some v1) p2 s2 (Some v2) = Ok (Some (spec_dec_cmp s1 v1 s2 v2)).
+  dec_cmp_core P m kd p1 s1 (Some v1) p2 s2 (Some v2) = Ok (Some (spec_dec_cmp s1 v1 s2 v2)).
 Proof.
-  intros m kd p1 s1 v1 p2 s2 v2 Hp1 Hp2 Hs1 Hs2 Hn Hv1 Hv2. rewrite maxprec_maxp in *.
+  intros P m kd p1 s1 v1 p2 s2 v2 Hp1 Hp2 Hs1 Hs2 Hn Hv1 Hv2. rewrite maxprec_maxp in *.
   assert (Hm : maxp kd <= 38) by (destruct kd; cbn; lia).
   set (N := Z.max (p1 - s1) (p2 - s2) + Z.max s1 s2) in *. set (S := Z.max s1 s2) in *.
-  assert (Hmeta : exists np, dec_bind_meta m kd p1 s1 p2 s2 = Ok (np, S) /\ p1 <= np <= maxp kd /\ p2 <= np /\
+  assert (Hmeta : exists np, dec_bind_meta P m kd p1 s1 p2 s2 = Ok (np, S) /\ p1 <= np <= maxp kd /\ p2 <= np /\
                              p1 + (S - s1) <= np /\ p2 + (S - s2) <= np).
   { unfold dec_bind_meta. destruct ((p1 =? p2) && (s1 =? s2)) eqn:E.
     - exists p1. assert (p1 = p2 /\ s1 = s2) as [-> ->] by lia. unfold S. rewrite Z.max_id.
       repeat split; try reflexivity; lia.
-    - exists N.
+    - exists N. destruct (bind_i8 P).
+      2:{ fold S. fold N. rewrite maxprec_maxp. replace (Z.max 1 (Z.min N (maxp kd))) with N by (unfold N, S in *; lia).
+          repeat split; try reflexivity; unfold N, S in *; lia. }
       rewrite (arith_result_exact Native m Signed 8 (p1 - s1)); [|lia|apply signed_range; cbn; unfold N, S in *; lia].
       rewrite (arith_result_exact Native m Signed 8 (p2 - s2)); [|lia|apply signed_range; cbn; unfold N, S in *; lia].
       cbn [bind_out]. fold S. fold N.
@@ -1220,27 +1223,31 @@ Proof.
   rewrite (cast_side_ok kd p2 s2 np S v2) by (unfold S; lia). cbn [bind_out]. reflexivity.
 Qed.
 
+Definition P_found : cparams := {| bind_i8 := true; u64_prec := 19; wide128 := false |}.
+Definition P_repaired : cparams := {| bind_i8 := false; u64_prec := 20; wide128 := true |}.
+
 Lemma dec_cmp_refuted :
-  dec_cmp_core Debug D64 18 0 (Some 1) 18 18 (Some (5 * 10 ^ 17)) = Err /\ spec_dec_cmp 0 1 18 (5 * 10 ^ 17) = Gt /\
-  dec_cmp_core Debug D128 38 0 (Some 1) 38 38 (Some (5 * 10 ^ 37)) = Err /\
-  dec_cmp_core Debug D128 38 (-100) None 5 2 (Some 50) = Panic /\ dec_cmp_core Release D128 38 (-100) None 5 2 (Some 50) = Err /\
-  dec_cmp_core Debug D128 18 0 (Some 1) 19 18 (Some (5 * 10 ^ 17)) = Ok (Some Gt).
+  dec_cmp_core P_found Debug D64 18 0 (Some 1) 18 18 (Some (5 * 10 ^ 17)) = Err /\ spec_dec_cmp 0 1 18 (5 * 10 ^ 17) = Gt /\
+  dec_cmp_core P_found Debug D128 38 0 (Some 1) 38 38 (Some (5 * 10 ^ 37)) = Err /\
+  dec_cmp_core P_found Debug D128 38 (-100) None 5 2 (Some 50) = Panic /\ dec_cmp_core P_found Release D128 38 (-100) None 5 2 (Some 50) = Err /\
+  dec_cmp_core P_found Debug D128 18 0 (Some 1) 19 18 (Some (5 * 10 ^ 17)) = Ok (Some Gt).
 Proof. vm_compute. repeat split; reflexivity. Qed.
 
 Lemma dec_cmp_examples :
-  dec_cmp_core Debug D64 10 2 (Some 150) 4 1 (Some 15) = Ok (Some Eq) /\
-  dec_cmp_core Debug D64 10 2 (Some 150) 10 2 (Some 15) = Ok (Some Gt) /\
-  dec_cmp_core Debug D64 10 2 (Some 15) 10 1 (Some 15) = Ok (Some Lt) /\
-  dec_cmp_core Debug D128 10 2 (Some (-150)) 20 1 (Some (-15)) = Ok (Some Eq) /\
-  dec_cmp_core Debug D64 10 (-2) (Some 1) 10 2 (Some 10000) = Ok (Some Eq) /\
-  dec_cmp_core Debug D64 10 2 None 4 1 (Some 15) = Ok None.
+  dec_cmp_core P_found Debug D64 10 2 (Some 150) 4 1 (Some 15) = Ok (Some Eq) /\
+  dec_cmp_core P_found Debug D64 10 2 (Some 150) 10 2 (Some 15) = Ok (Some Gt) /\
+  dec_cmp_core P_found Debug D64 10 2 (Some 15) 10 1 (Some 15) = Ok (Some Lt) /\
+  dec_cmp_core P_found Debug D128 10 2 (Some (-150)) 20 1 (Some (-15)) = Ok (Some Eq) /\
+  dec_cmp_core P_found Debug D64 10 (-2) (Some 1) 10 2 (Some 10000) = Ok (Some Eq) /\
+  dec_cmp_core P_found Debug D64 10 2 None 4 1 (Some 15) = Ok None.
 Proof. vm_compute. repeat split; reflexivity. Qed.
 
 (* ---- mixed operands: every resolution that stays in decimals is exact *)
-Definition exact_path (l r : cop) : bool :=
+Definition exact_path (P : cparams) (l r : cop) : bool :=
   match l, r with
   | OpDec _ _ _ _, OpDec _ _ _ _ => true
-  | OpDec kd _ _ _, OpInt _ w _ | OpInt _ w _, OpDec kd _ _ _ => (w <=? 32) || match kd with D128 => true | D64 => false end
+  | OpDec kd _ _ _, OpInt _ w _ | OpInt _ w _, OpDec kd _ _ _ =>
+    (w <=? 32) || wide128 P || match kd with D128 => true | D64 => false end
   | _, _ => false
   end.
 
@@ -1250,13 +1257,13 @@ Proof. intros a b c H. subst c. apply Z.compare_antisym. Qed.
 Lemma spec_dec_cmp_flip : forall s1 v1 s2 v2, spec_dec_cmp s2 v2 s1 v1 = CompOpp (spec_dec_cmp s1 v1 s2 v2).
 Proof. intros. unfold spec_dec_cmp. rewrite (Z.max_comm s2 s1). apply Z.compare_antisym. Qed.
 
-Lemma int_as_dec_inv : forall w x y, int_as_dec w x = Ok y -> y = x.
-Proof. intros w x y H. unfold int_as_dec in H. destruct x as [x|]; [destruct (vprec x (int_meta_prec w))|]; inversion H; reflexivity. Qed.
+Lemma int_as_dec_inv : forall P sg w x y, int_as_dec P sg w x = Ok y -> y = x.
+Proof. intros P sg w x y H. unfold int_as_dec in H. destruct x as [x|]; [destruct (vprec x (int_prec P sg w))|]; inversion H; reflexivity. Qed.
 
-Lemma cmp_mixed_sound : forall m l r c, exact_path l r = true ->
-  impl_cmp_mixed m l r = Ok (Some c) -> spec_cmp_mixed l r = Ok (Some c).
+Lemma cmp_mixed_sound : forall P m l r c, exact_path P l r = true ->
+  impl_cmp_mixed P m l r = Ok (Some c) -> spec_cmp_mixed l r = Ok (Some c).
 Proof.
-  intros m l r c Hp H.
+  intros P m l r c Hp H.
   destruct l as [kd1 p1 s1 v1|sg1 w1 x1|b1]; destruct r as [kd2 p2 s2 v2|sg2 w2 x2|b2]; cbn [exact_path] in Hp; try discriminate.
   - (* decimal ~ decimal *)
     cbn [impl_cmp_mixed dec_vs] in H.
@@ -1265,32 +1272,46 @@ Proof.
     apply dec_cmp_sound in H. subst c. reflexivity.
   - (* decimal ~ integer *)
     cbn [impl_cmp_mixed dec_vs] in H.
-    assert (Hcore : bind_out (int_as_dec w2 x2) (fun y => dec_cmp_core m kd1 p1 s1 v1 (int_meta_prec w2) 0 y) = Ok (Some c)).
-    { destruct (w2 <=? 32); [exact H|]. destruct kd1; [discriminate|exact H]. }
-    destruct (int_as_dec w2 x2) as [y| |] eqn:Ei; cbn [bind_out] in Hcore; try discriminate.
+    assert (Hcore : exists k, bind_out (int_as_dec P sg2 w2 x2) (fun y => dec_cmp_core P m k p1 s1 v1 (int_prec P sg2 w2) 0 y) = Ok (Some c)).
+    { destruct (w2 <=? 32); [eexists; exact H|]. destruct (wide128 P); [eexists; exact H|].
+      destruct kd1; [discriminate|eexists; exact H]. }
+    destruct Hcore as [k Hcore].
+    destruct (int_as_dec P sg2 w2 x2) as [y| |] eqn:Ei; cbn [bind_out] in Hcore; try discriminate.
     apply int_as_dec_inv in Ei. subst y.
     destruct v1 as [v1|]; [|apply dec_cmp_null in Hcore; [discriminate|left; reflexivity]].
     destruct x2 as [x2|]; [|apply dec_cmp_null in Hcore; [discriminate|right; reflexivity]].
     apply dec_cmp_sound in Hcore. subst c. reflexivity.
   - (* integer ~ decimal *)
     cbn [impl_cmp_mixed dec_vs] in H.
-    assert (Hcore : bind_out (int_as_dec w1 x1) (fun y => dec_cmp_core m kd2 (int_meta_prec w1) 0 y p2 s2 v2) = Ok (Some c)).
-    { destruct (w1 <=? 32); [exact H|]. destruct kd2; [discriminate|exact H]. }
-    destruct (int_as_dec w1 x1) as [y| |] eqn:Ei; cbn [bind_out] in Hcore; try discriminate.
+    assert (Hcore : exists k, bind_out (int_as_dec P sg1 w1 x1) (fun y => dec_cmp_core P m k (int_prec P sg1 w1) 0 y p2 s2 v2) = Ok (Some c)).
+    { destruct (w1 <=? 32); [eexists; exact H|]. destruct (wide128 P); [eexists; exact H|].
+      destruct kd2; [discriminate|eexists; exact H]. }
+    destruct Hcore as [k Hcore].
+    destruct (int_as_dec P sg1 w1 x1) as [y| |] eqn:Ei; cbn [bind_out] in Hcore; try discriminate.
     apply int_as_dec_inv in Ei. subst y.
     destruct x1 as [x1|]; [|apply dec_cmp_null in Hcore; [discriminate|left; reflexivity]].
     destruct v2 as [v2|]; [|apply dec_cmp_null in Hcore; [discriminate|right; reflexivity]].
     apply dec_cmp_sound in Hcore. subst c. reflexivity.
 Qed.
 
+(* with the wide casts every decimal ~ integer comparison stays in decimals *)
+Lemma exact_path_repaired : forall l r, exact_path P_repaired l r =
+  match l, r with OpDec _ _ _ _, OpDec _ _ _ _ | OpDec _ _ _ _, OpInt _ _ _ | OpInt _ _ _, OpDec _ _ _ _ => true | _, _ => false end.
+Proof. intros l r. destruct l, r; cbn [exact_path P_repaired wide128]; try reflexivity; rewrite orb_true_r; reflexivity. Qed.
+
 (* Int64 against a Decimal64: both sides go through Float64 and integers beyond 2^53 that differ compare equal;
    UInt64 of 20 digits against a Decimal128: the cast to decimal(19,0) fails *)
 Lemma cmp_mixed_refuted :
-  impl_cmp_mixed Debug (OpInt Signed 64 (Some 9007199254740993)) (OpDec D64 18 0 (Some 9007199254740992)) = Ok (Some Eq) /\
+  impl_cmp_mixed P_found Debug (OpInt Signed 64 (Some 9007199254740993)) (OpDec D64 18 0 (Some 9007199254740992)) = Ok (Some Eq) /\
   spec_cmp_mixed (OpInt Signed 64 (Some 9007199254740993)) (OpDec D64 18 0 (Some 9007199254740992)) = Ok (Some Gt) /\
-  impl_cmp_mixed Debug (OpDec D128 20 2 (Some 150)) (OpInt Unsigned 64 (Some 18446744073709551615)) = Err /\
+  impl_cmp_mixed P_found Debug (OpDec D128 20 2 (Some 150)) (OpInt Unsigned 64 (Some 18446744073709551615)) = Err /\
   spec_cmp_mixed (OpDec D128 20 2 (Some 150)) (OpInt Unsigned 64 (Some 18446744073709551615)) = Ok (Some Lt) /\
-  impl_cmp_mixed Debug (OpInt Unsigned 64 (Some 5)) (OpDec D64 10 2 (Some 500)) = Err.
+  impl_cmp_mixed P_found Debug (OpInt Unsigned 64 (Some 5)) (OpDec D64 10 2 (Some 500)) = Err /\
+  (* the same operands with the repaired variants *)
+  impl_cmp_mixed P_repaired Debug (OpInt Signed 64 (Some 9007199254740993)) (OpDec D64 18 0 (Some 9007199254740992)) = Ok (Some Gt) /\
+  impl_cmp_mixed P_repaired Debug (OpDec D128 20 2 (Some 150)) (OpInt Unsigned 64 (Some 18446744073709551615)) = Ok (Some Lt) /\
+  impl_cmp_mixed P_repaired Debug (OpInt Unsigned 64 (Some 5)) (OpDec D64 10 2 (Some 500)) = Ok (Some Eq) /\
+  dec_cmp_core P_repaired Debug D128 38 (-100) None 5 2 (Some 50) = Err.
 Proof. vm_compute. repeat split; reflexivity. Qed.
 
 Lemma cmp_results_spec : forall c,
@@ -1303,7 +1324,7 @@ Proof. intros c. destruct c; reflexivity. Qed.
 
 Example dec_cmp_hyps_sat : 1 <= 10 <= maxprec D64 /\ 1 <= 4 <= maxprec D64 /\ -64 <= 2 <= 10 /\ -64 <= 1 <= 4 /\
   Z.max (10 - 2) (4 - 1) + Z.max 2 1 <= maxprec D64 /\ Z.abs 150 < 10 ^ 10 /\ Z.abs 15 < 10 ^ 4 /\
-  exact_path (OpDec D64 10 2 (Some 150)) (OpInt Signed 32 (Some 2)) = true.
+  exact_path P_found (OpDec D64 10 2 (Some 150)) (OpInt Signed 32 (Some 2)) = true.
 Proof. vm_compute. repeat split; discriminate. Qed.
 
 (* ------------------------------------------------------------------ which variant the source has *)
@@ -1313,6 +1334,10 @@ Lemma src_variants_known : exists g l f s r,
   gcd_native = Some g /\ lcm_native = Some l /\ factorial_null = Some f /\ shr_zero_fill = Some s /\
   d2d_scale_sub_native = Some r /\ In g [0; 1] /\ In l [0; 1] /\ In f [0; 1] /\ In s [0; 1] /\ In r [0; 1].
 Proof. do 5 eexists. repeat split; try reflexivity; vm_compute; tauto. Qed.
+
+Lemma src_cmp_params_known : exists b u w,
+  decbind_i8 = Some b /\ u64_dec_precision = Some u /\ wide_dec128 = Some w /\ In b [0; 1] /\ In u [19; 20] /\ In w [0; 1].
+Proof. do 3 eexists. repeat split; try reflexivity; vm_compute; tauto. Qed.
 
 (* the source has the repaired variant of all five files: the theorems about impl_gcd, impl_lcm, impl_factorial,
    impl_shr, impl_round are theorems about the current source *)
